@@ -331,6 +331,11 @@ def run(ctx):
     from .c13 import clause_ascii_compatible_ctor
     clause_ascii_compatible_ctor(r, mir)
 
+    # ------------------------------------------------------------------ R15.9 (shared with C09 R09.4)
+    # break_on_end_of_input computes pos() - consumed: the consumed count must never exceed the earliest mark
+    from .c09 import rule_consumed_count
+    rule_consumed_count(ctx, idx, rid="R15.9")
+
     ctx.not_decided += ["absence of panics / overflow for all inputs (only the accounting and guards of panic-capable constructs are decided)", "stack exhaustion inside the selectors / cssparser crates", "running-time bounds beyond progress of the state machine"]
     ctx.assumptions += ["reviewed entries of spec/panic_sites.json are guarded as stated there", "recursion detection follows resolved calls and closure creation; calls through generic trait bounds (type-structural recursion such as Option<T>::align) are not followed"]
     return ("Structural part only: progress of the tokenizer automaton for each of the 257 input symbols, must-typestate of the actions' "
